@@ -229,6 +229,7 @@ func cmdCheck(o opts, prop, tier string) int {
 	}
 	var all []*Obligation
 	var frames []*Frame
+	var supportFrames []*Frame
 	var engineErrs []string
 	var names []string
 	for n, c := range e.db.Contracts {
@@ -257,6 +258,68 @@ func cmdCheck(o opts, prop, tier string) int {
 		}
 		frames = append(frames, f)
 		all = append(all, f.obls...)
+	}
+	// support closure: the proofs above assume the postconditions of the contracted callees they call. Those clauses are
+	// verified where they are tagged; a clause tagged for another property only would leave this property's check blind
+	// to a change that breaks it. Every non-safety clause of every contracted function the selected proofs rely on
+	// (transitively) is therefore an obligation of this check too.
+	if prop != "C20" && os.Getenv("GOVC_NO_CLOSURE") == "" {
+		known := loadKnown(o.verif)
+		done := map[string]bool{}
+		for _, f := range frames {
+			done[f.name] = true
+		}
+		work := append([]*Frame{}, frames...)
+		nExtra := 0
+		for len(work) > 0 {
+			f := work[0]
+			work = work[1:]
+			var us []string
+			for u := range f.used {
+				us = append(us, u)
+			}
+			sort.Strings(us)
+			for _, u := range us {
+				if done[u] {
+					continue
+				}
+				done[u] = true
+				c := e.db.Contracts[u]
+				fn := e.fnByName[u]
+				if c == nil || fn == nil || (c.Assumed && !c.Flags["partial"]) || len(fn.Blocks) == 0 {
+					continue
+				}
+				g, err := e.verifyFunction(fn, false)
+				if err != nil {
+					engineErrs = append(engineErrs, err.Error())
+					continue
+				}
+				for _, ob := range g.obls {
+					if ob.Kind == "safety" || ob.Kind == "vacuity" || ob.Kind == "cover" || ob.Kind == "consistency" || hasProp(ob.Props, prop) {
+						continue
+					}
+					// clauses that exist for the no-panic sweep need its type invariants; known findings of another
+					// property are reported by that property's check
+					if len(ob.Props) == 0 || (len(ob.Props) == 1 && ob.Props[0] == "C20") || knownElsewhere(known, ob.ID, prop) {
+						continue
+					}
+					// quick tier: only the wrapper / statement / getter / accessor / observation clauses (what a key, a
+					// statement or a published field means); thorough tier: every clause the proofs rely on
+					if tier != "thorough" && !infrastructureClause(ob.ID) {
+						continue
+					}
+					ob.Props = append(ob.Props, prop)
+					ob.Support = true
+					nExtra++
+				}
+				supportFrames = append(supportFrames, g)
+				all = append(all, g.obls...)
+				work = append(work, g)
+			}
+		}
+		if os.Getenv("GOVC_CLOSURE_STATS") != "" {
+			fmt.Fprintf(os.Stderr, "closure %s: %d functions, %d extra obligations\n", prop, len(supportFrames), nExtra)
+		}
 	}
 	all = append(all, e.lemmaObligations()...)
 	if prop == "C20" {
@@ -417,6 +480,45 @@ func cmdReach(o opts, roots []string) int {
 	}
 	fmt.Printf("REACHABLE %d functions, %d with a contract\n", len(names), nc)
 	return 0
+}
+
+func knownElsewhere(known []KnownFinding, id, prop string) bool {
+	for _, k := range known {
+		if k.Status == "known" && k.Property != prop && (id == k.Obligation || stripOrdinal(id) == k.Obligation || strings.HasPrefix(id, k.Obligation+"@")) {
+			return true
+		}
+	}
+	return false
+}
+
+// infrastructureClause: clause labels wrap.* (appDCS keys), stmt.* / get.* (Node statements and getters), col.* (status
+// accessors), obs.* (the observation function)
+func infrastructureClause(id string) bool {
+	i := strings.Index(id, "#")
+	if i < 0 {
+		return false
+	}
+	rest := id[i+1:]
+	j := strings.Index(rest, ":")
+	if j < 0 {
+		return false
+	}
+	lab := rest[j+1:]
+	for _, p := range []string{"wrap.", "stmt.", "get.", "col.", "obs."} {
+		if strings.HasPrefix(lab, p) {
+			return true
+		}
+	}
+	return false
+}
+
+func hasProp(ps []string, p string) bool {
+	for _, x := range ps {
+		if x == p {
+			return true
+		}
+	}
+	return false
 }
 
 func contractServes(c *Contract, prop string) bool {
